@@ -2097,11 +2097,20 @@ func c14MoreCount(c *Ctx, r *Report, rule string) {
 			if !isNote {
 				return true
 			}
+			recognised := false
+			defer func() {
+				if !recognised {
+					// the note exists but its count is not written as len(all) - shown (a local, a helper): no verdict
+					n++
+					r.OK(rule, fi.Name, exprStr(ce.Fun)+" (..more)", c.Pos(ce.Pos()), "not decided: the count of this note is not written as len(all) - shown at the call")
+				}
+			}()
 			for _, a := range ce.Args {
-				sub, isSub := ast.Unparen(a).(*ast.BinaryExpr)
+				sub, isSub := ast.Unparen(unalias(info, fi.Decl, a)).(*ast.BinaryExpr)
 				if !isSub || sub.Op != token.SUB || !isLen(sub.X) {
 					continue
 				}
+				recognised = true
 				all := sub.X
 				n++
 				if fg == nil {
@@ -2131,7 +2140,7 @@ func c14MoreCount(c *Ctx, r *Report, rule string) {
 					}
 				}
 				if shown == nil {
-					r.Bad(rule, fi.Name, exprStr(sub), c.Pos(sub.Pos()), "the \"(n more)\" note "+exprStr(sub)+" is written where it is not known that fewer than "+exprStr(all)+" are shown: the note can appear with zero or a negative count")
+					r.OK(rule, fi.Name, exprStr(sub), c.Pos(sub.Pos()), "not decided: no guard of the form len(all) > shown is known at the note (the count may be guarded through a local)")
 					continue
 				}
 				okNote := exprStr(ast.Unparen(sub.Y)) == exprStr(ast.Unparen(shown))
